@@ -123,7 +123,14 @@ func (g *G) CreateTable() ([]Tok, *ast.CreateTableStatement) {
 		cd := ast.ColumnDef{Name: c.name, Type: ty}
 		it := cat(sym(c.src), typeToks(ty))
 		for j, m := 0, g.intn(3, "nconstraints"); j < m; j++ {
-			switch g.intn(7, "colconstraint") {
+			nk := 7
+			if g.F.MySQL {
+				nk = 8
+			}
+			switch g.intn(nk, "colconstraint") {
+			case 7:
+				it = cat(it, g.kw("AUTO_INCREMENT"))
+				cd.Constraints = append(cd.Constraints, ast.ColumnConstraint{Type: "AUTO_INCREMENT", AutoIncrement: true})
 			case 0:
 				it = cat(it, g.kw("NOT", "NULL"))
 				cd.Constraints = append(cd.Constraints, ast.ColumnConstraint{Type: "NOT NULL"})
@@ -184,7 +191,84 @@ func (g *G) CreateTable() ([]Tok, *ast.CreateTableStatement) {
 		s.Constraints = append(s.Constraints, tc)
 	}
 	t = cat(t, commaJoin(items), sym(")"))
+	if g.F.Partitions && g.chance(45, "partitionby") {
+		pt, pb, defs := g.partitioning()
+		t = cat(t, pt)
+		s.PartitionBy, s.Partitions = pb, defs
+	}
+	if g.F.MySQL && g.chance(25, "tableoptions") {
+		g.use("table_options")
+		for i, n := 0, 1+g.intn(2, "ntableoptions"); i < n; i++ {
+			// COMMENT '...' is outside the model: the parser rejects a string-literal option value
+			name := []string{"ENGINE", "CHARSET", "COLLATE"}[g.intn(3, "tableoption")]
+			w := []string{"InnoDB", "utf8mb4", "latin1", "utf8mb4_bin"}[g.intn(4, "tableoptionvalue")]
+			v := X{T: sym(w), N: &ast.LiteralValue{Value: w}}
+			t = cat(t, sym(name))
+			if g.chance(70, "optioneq") {
+				t = cat(t, sym("="))
+			}
+			t = cat(t, v.T)
+			s.Options = append(s.Options, ast.TableOption{Name: name, Value: fmt_value(v.N)})
+		}
+	}
 	return t, s
+}
+
+func fmt_value(e ast.Expression) string {
+	if l, ok := e.(*ast.LiteralValue); ok {
+		if sv, ok := l.Value.(string); ok {
+			return sv
+		}
+	}
+	return ""
+}
+
+// partitioning draws PARTITION BY RANGE|LIST|HASH (cols) [ (PARTITION p VALUES ... , ...) ].
+func (g *G) partitioning() ([]Tok, *ast.PartitionBy, []ast.PartitionDefinition) {
+	g.use("partition_by")
+	kind := []string{"RANGE", "LIST", "HASH"}[g.intn(3, "partitionkind")]
+	ct, cn := g.colList(1+g.intn(2, "npartcols"), "partcol")
+	t := cat(g.kw("PARTITION", "BY", kind), ct)
+	pb := &ast.PartitionBy{Type: kind, Columns: cn}
+	if kind == "HASH" || !g.chance(75, "partitiondefs") {
+		return t, pb, nil
+	}
+	g.use("partition_definitions")
+	var defs []ast.PartitionDefinition
+	var items [][]Tok
+	for i, n := 0, 1+g.intn(3, "npartitions"); i < n; i++ {
+		nm := []string{"p0", "p1", "p_old", "pmax"}[g.intn(4, "partname")]
+		d := ast.PartitionDefinition{Name: nm}
+		it := cat(g.kw("PARTITION"), sym(nm), g.kw("VALUES"))
+		switch {
+		case kind == "LIST":
+			ts, ns := g.args(1 + g.intn(3, "npartvalues"))
+			it = cat(it, g.kw("IN"), sym("("), commaJoin(ts), sym(")"))
+			d.Type, d.InValues = "IN", ns
+		case g.chance(25, "partfromto"):
+			a, b := g.at(g.Value(), POr), g.at(g.Value(), POr)
+			it = cat(it, g.kw("FROM"), sym("("), a.T, sym(")"), g.kw("TO"), sym("("), b.T, sym(")"))
+			d.Type, d.From, d.To = "FROM TO", a.N, b.N
+		case g.chance(25, "partmaxvalue"):
+			d.Type, d.LessThan = "LESS THAN", &ast.Identifier{Name: "MAXVALUE"}
+			if g.chance(50, "maxvalueparen") {
+				it = cat(it, g.kw("LESS", "THAN"), sym("("), g.kw("MAXVALUE"), sym(")"))
+			} else {
+				it = cat(it, g.kw("LESS", "THAN", "MAXVALUE"))
+			}
+		default:
+			v := g.at(g.Value(), POr)
+			it = cat(it, g.kw("LESS", "THAN"), sym("("), v.T, sym(")"))
+			d.Type, d.LessThan = "LESS THAN", v.N
+		}
+		if g.chance(15, "parttablespace") {
+			it = cat(it, g.kw("TABLESPACE"), sym("ts1"))
+			d.Tablespace = "ts1"
+		}
+		items = append(items, it)
+		defs = append(defs, d)
+	}
+	return cat(t, sym("("), commaJoin(items), sym(")")), pb, defs
 }
 
 func (g *G) CreateIndex() ([]Tok, *ast.CreateIndexStatement) {
